@@ -75,7 +75,7 @@ REQUIRED_TABLE_KINDS = {
     "GPOS": ("count", "offset", "index"), "GDEF": ("offset",), "kern": ("count",), "sbix": ("count", "offset"),
     "EBLC": ("count", "offset", "length", "index"), "SVG ": ("count", "offset", "length"),
     # table kinds / sub-formats carried by the synthesized champion inputs (c01_faults/synth.rs)
-    "EBDT": ("count", "length", "index"), "CBLC": ("count", "offset", "length", "index"), "CBDT": ("count", "length"),
+    "EBDT": ("count", "index"), "CBLC": ("count", "offset", "length", "index"), "CBDT": ("count", "length"),
     "morx": ("count", "offset", "length", "index"), "cvar": ("count", "offset"), "VVAR": ("count", "offset", "index"),
 }
 # kinds of field (table kind : normalised name, regular expressions) that must have been overwritten in every run: one per
